@@ -28,6 +28,7 @@ const (
 	RSnapshotNew  = "snapshot-new"  // an empty replica receives a snapshot
 	RSnapshotOver = "snapshot-over" // a lagging replica whose next file is gone receives a snapshot over its data
 	RShrink       = "shrink"        // a transaction that truncates the database arrives
+	RSnapshotBack = "snapshot-back" // a former primary that is ahead of the new primary (its last transactions never left it) receives the new primary's snapshot: the position after is lower than the one before
 )
 
 type ReplicaPlan struct {
@@ -45,11 +46,11 @@ func genReplicaPlan(t *rapid.T) ReplicaPlan {
 		PageSize: rapid.SampledFrom([]uint32{512, 1024, 4096}).Draw(t, "page_size"),
 		Mode:     rapid.SampledFrom([]string{pager.Delete, pager.Persist, pager.WAL, pager.WAL}).Draw(t, "mode"),
 		Compress: rapid.Bool().Draw(t, "lz4"),
-		Kind:     rapid.SampledFrom([]string{RIncremental, RIncremental, RBurst, RSnapshotNew, RSnapshotOver, RSnapshotOver, RShrink}).Draw(t, "kind"),
+		Kind:     rapid.SampledFrom([]string{RIncremental, RIncremental, RBurst, RSnapshotNew, RSnapshotOver, RSnapshotOver, RSnapshotBack, RSnapshotBack, RShrink}).Draw(t, "kind"),
 	}
 	ns := rapid.IntRange(1, 3).Draw(t, "nsetup")
 	nt := 1
-	if p.Kind == RBurst || p.Kind == RSnapshotOver {
+	if p.Kind == RBurst || p.Kind == RSnapshotOver || p.Kind == RSnapshotBack {
 		nt = rapid.IntRange(2, 4).Draw(t, "ntx")
 	}
 	txs := gen.Txs(t, ns+nt+1, 400)
@@ -86,7 +87,7 @@ func runReplicaPlan(c *pbt.Case, p ReplicaPlan) {
 		c.Failf("C05/setup", "%v", err)
 	}
 	rec := &crash.Recorder{}
-	ropts := cluster.NodeOpts{Compress: p.Compress, Configure: func(s *litefs.Store) { rec.Store = s; s.OS = rec.WrapOS(s.OS) }}
+	ropts := cluster.NodeOpts{Compress: p.Compress, Candidate: p.Kind == RSnapshotBack, Configure: func(s *litefs.Store) { rec.Store = s; s.OS = rec.WrapOS(s.OS) }}
 	c.Labelf("replica-op:%s", p.Kind)
 	c.Labelf("mode:%s", p.Mode)
 	write := func(tx pager.WalTx, what string) {
@@ -165,6 +166,39 @@ func runReplicaPlan(c *pbt.Case, p ReplicaPlan) {
 		pr.Store.Retention = keep
 		rec.Enabled = true
 		rp.FC.CutAll() // reconnect: the position is announced afresh
+	case RSnapshotBack:
+		// the replica-to-be is primary for a while and what it commits reaches nobody
+		for w := 0; w < 5000 && rp.Store.ClusterID() == ""; w++ {
+			time.Sleep(time.Millisecond)
+		}
+		pr.CloseConns()
+		pr.FC.Isolate()
+		if err := cl.MakePrimary(rp, false, 20*time.Second); err != nil {
+			c.Failf("C05/setup", "%v", err)
+		}
+		for i, tx := range p.Txs {
+			wr, err := rp.Write(name, tx)
+			if err != nil {
+				c.Failf("C05/harness", "%v", err)
+			}
+			if wr.Err != nil {
+				c.Failf("C05/setup", "operation %d: a valid transaction on the temporary primary was refused: %v", i, wr.Err)
+			}
+		}
+		rp.CloseConns()
+		pre = rp.Pos(name)
+		// the lease moves back (expiry: the temporary primary is not asked), and the node
+		// that is now ahead finds a primary that never saw its transactions
+		rp.FC.Refuse(true)
+		if err := cl.MakePrimary(pr, true, 20*time.Second); err != nil {
+			c.Failf("C05/setup", "%v", err)
+		}
+		pr.FC.Refuse(false)
+		for w := 0; w < 5000 && rp.Store.IsPrimary(); w++ {
+			time.Sleep(time.Millisecond)
+		}
+		rec.Enabled = true
+		rp.FC.Refuse(false)
 	case RSnapshotNew:
 		// recorder was enabled before the node started
 	}
@@ -224,7 +258,7 @@ func runReplicaPlan(c *pbt.Case, p ReplicaPlan) {
 		// files it replaces leaves both in the directory; the node recovers from the
 		// newest file, which is what this property asks for. (That the kept files form
 		// one chain at quiescent points is C09's business and is checked there.)
-		snap := p.Kind == RSnapshotNew || p.Kind == RSnapshotOver
+		snap := p.Kind == RSnapshotNew || p.Kind == RSnapshotOver || p.Kind == RSnapshotBack
 		if snap && strings.HasPrefix(pt.MonSig, "C09/") {
 			pt.MonSig = ""
 			c.Label("old-chain-next-to-snapshot-at-crash")
